@@ -26,7 +26,10 @@ from engine.vloop import VLoop
 from aioslsk.utils import ticket_generator
 from aioslsk.tasks import Timer, BackgroundTask
 from aioslsk.events import (EventBus, MessageReceivedEvent, SearchRequestSentEvent, SearchRequestRemovedEvent,
-                            SearchResultEvent)
+                            SearchResultEvent, ConnectionStateChangedEvent, SessionInitializedEvent, SessionDestroyedEvent)
+from aioslsk.network.connection import ServerConnection, ConnectionState, CloseReason
+from aioslsk.session import Session
+from aioslsk.user.model import User
 import aioslsk.search.manager as manager_mod
 from aioslsk.search.manager import SearchManager
 from aioslsk.search.model import SearchType
@@ -203,6 +206,7 @@ class CLoop(VLoop):
         super().__init__()
         self.choose2 = None
         self.side_of: dict = {}       # coroutine qualname -> 'user' | None
+        self.task_owner: dict = {}    # task -> the `self` of the coroutine method it runs
         self._time = Fraction(0)      # exact virtual clock (see dur)
 
     def step(self) -> bool:
@@ -239,7 +243,11 @@ class CLoop(VLoop):
         if side is not _MISSING:
             context = context.copy() if context is not None else contextvars.copy_context()
             context.run(ROLE.set, side)
-        return super().create_task(coro, name=name, context=context)
+        t = super().create_task(coro, name=name, context=context)
+        frame = getattr(coro, 'cr_frame', None)
+        if frame is not None:
+            self.task_owner[t] = frame.f_locals.get('self')      # e.g. the Timer whose runner() this task executes
+        return t
 
     def spawn_user(self, coro):
         ctx = contextvars.copy_context()
@@ -311,9 +319,11 @@ class Rec:
 
 class World:
 
-    def __init__(self, c, position='any', slow_send=False, slow_disconnect=False):
+    def __init__(self, c, position='any', slow_send=False, slow_disconnect=False, listeners=()):
         self.c = c
         self.slow_disconnect = slow_disconnect
+        self.session = None
+        self.stopped = False
         self.loop = CLoop()
         self.settings = Settings(**DEFAULT_SETTINGS)
         self.settings.searches.wishlist = [WishlistSettingEntry(query='wish one'),
@@ -338,7 +348,41 @@ class World:
         self.bus.register(SearchRequestSentEvent, self._on_sent)
         self.bus.register(SearchRequestRemovedEvent, self._on_removed)
         self.bus.register(SearchResultEvent, self._on_result)
+        # further listeners of the application, registered after the observers above (same priority => called after them)
+        self.listener_kinds = list(listeners)
+        self.deliveries: list = []      # (listener index, 'removed'|'result', request, result, 'start'|'done')
+        self._extra = []
+        for k, kind in enumerate(self.listener_kinds):
+            for evkind, cls in (('removed', SearchRequestRemovedEvent), ('result', SearchResultEvent)):
+                fn = self._make_listener(k, kind, evkind)
+                self._extra.append(fn)          # the bus keeps weak references only
+                self.bus.register(cls, fn)
         self._install_tickets(position)
+
+    def _make_listener(self, k, kind, evkind):
+        """an application listener.  sync: plain function; async: coroutine function that never
+        suspends; yield: coroutine function that really suspends, for a fresh symbolic time (0 = one
+        bare yield), as a listener doing any I/O would"""
+        c = self.c
+
+        def note(event, phase):
+            self.deliveries.append((k, evkind, event.query, getattr(event, 'result', None), phase))
+        if kind == 'sync':
+            def listener(event):
+                note(event, 'start')
+                note(event, 'done')
+        elif kind == 'async':
+            async def listener(event):
+                note(event, 'start')
+                note(event, 'done')
+        elif kind == 'yield':
+            async def listener(event):
+                note(event, 'start')
+                await asyncio.sleep(dur(c, f'listener{k}_{evkind}_takes'))
+                note(event, 'done')
+        else:
+            raise symex.HarnessError(f'listener kind {kind}')
+        return listener
 
     # ---- ticket generator ---------------------------------------------------
     def _install_tickets(self, position):
@@ -457,6 +501,25 @@ class World:
         await self.mgr._on_message_received(MessageReceivedEvent(WishlistInterval.Response(interval=interval), FakeConn()))
         if not keep_running:
             self.mgr._wishlist_task.cancel()
+
+    async def a_relogin(self):
+        """the server connection is lost and the client logs in again, as SoulSeekClient does it:
+        ConnectionStateChangedEvent(CLOSING), (CLOSED), SessionDestroyedEvent (when a session existed),
+        then SessionInitializedEvent with a new Session - all through the real EventBus, handled by the
+        manager's real listeners.  Requests that are registered survive this."""
+        conn = ServerConnection('server', 2416, self.net)
+        for state in (ConnectionState.CLOSING, ConnectionState.CLOSED):
+            await self.bus.emit(ConnectionStateChangedEvent(conn, state, CloseReason.EOF))
+        if self.session is not None:
+            old, self.session = self.session, None
+            await self.bus.emit(SessionDestroyedEvent(old))
+        self.session = Session(user=User('me'), ip_address='1.2.3.4', greeting='', client_version=157, minor_version=100)
+        await self.bus.emit(SessionInitializedEvent(self.session, None))
+        g = getattr(self.mgr, '_ticket_generator', None)
+        if self.c.symbolic and g is not None and not isinstance(g, BoxedTickets):
+            self.mgr._ticket_generator = BoxedTickets(g)
+        self.say('session lost and re-initialised')
+        self.c.reach('relogin')
 
     # searches -----------------------------------------------------------------
     async def a_search(self, kind):
@@ -606,6 +669,50 @@ class World:
                 c.check(False, 'no_task_exception', sig=[type(exc).__name__, ctx], info=repr(exc))
         self.fail_if_harness_errors()
 
+    def check_deliveries(self):
+        """after the loop has drained: every application listener has received every removal / result
+        that was reported (to the first observer) exactly once and has run to completion"""
+        c = self.c
+        if not self.listener_kinds:
+            return
+        for evkind, label in (('removed', 'removal_reported_to_every_listener'), ('result', 'result_reported_to_every_listener')):
+            groups = []          # (request, result) -> number of reports seen by the observer
+            for e in self.events:
+                if e.kind != evkind:
+                    continue
+                g = next((g for g in groups if g[0] is e.req and g[1] is e.result), None)
+                if g is None:
+                    groups.append([e.req, e.result, 1])
+                else:
+                    g[2] += 1
+            for req, result, n in groups:
+                for k, kind in enumerate(self.listener_kinds):
+                    starts = sum(1 for d in self.deliveries if d[0] == k and d[1] == evkind and d[2] is req and d[3] is result and d[4] == 'start')
+                    dones = sum(1 for d in self.deliveries if d[0] == k and d[1] == evkind and d[2] is req and d[3] is result and d[4] == 'done')
+                    before = [self.listener_kinds[j] for j in range(k)]
+                    what = 'ok' if starts == n == dones else 'not_delivered' if starts < n else 'aborted' if dones < starts else 'too_often'
+                    if what != 'ok':
+                        self.say(f'listener {k} ({kind}) of {evkind}: {what}; started {starts}, completed {dones}, reported {n}')
+                    c.check(what == 'ok', label, sig=[kind, what, 'after_yielding_listener' if 'yield' in before else 'first_or_after_plain'])
+                c.reach(evkind + '_reported_to_listeners')
+
+    def check_timer_tasks(self):
+        """no library task of a request that timed out ended cancelled (or failed): the timer task of a
+        request whose time-out was reached has to run to its end"""
+        c = self.c
+        owners = getattr(self.loop, 'task_owner', {})
+        for r in self.recs:
+            timer = getattr(r.req, 'timer', None)
+            timed_out = any(e.kind == 'removed' and e.req is r.req for e in self.events) and not r.manual and not self.stopped
+            if timer is None or not timed_out:
+                continue
+            for t, o in owners.items():
+                if o is timer:
+                    ok = t.done() and not t.cancelled()
+                    if not ok:
+                        self.say('timer task of the timed-out request', r.ticket, 'cancelled' if t.done() else 'still pending')
+                    c.check(ok, 'no_task_cancelled', sig=[r.kind, 'timer_of_timed_out_request', 'cancelled' if t.done() else 'pending'])
+
     def finish(self):
         """let calls that are still sending complete and every armed time-out be reached, then
         drain the loop"""
@@ -617,6 +724,8 @@ class World:
         self.observe()
         self.loop.run_until_quiet()
         self.observe()
+        self.check_deliveries()
+        self.check_timer_tasks()
         for t in self.own_tasks:
             if not t.done():
                 raise symex.HarnessError('an API call of the scenario never returned')
@@ -661,17 +770,18 @@ OPS_DOC = {
     'X': 'remove_request() of one of the registered requests (which one: discriminant)',
     'P': 'incoming PeerSearchReply with a fresh symbolic uint32 ticket',
     'Q': 'incoming PeerSearchReply carrying the ticket of one of the requests sent so far (which one: discriminant)',
-    'D': 'a fresh symbolic amount of time (k/8 s) passes',
+    'D': 'a fresh symbolic amount of time passes',
+    'Z': 'the session is lost and re-initialised (state change + SessionDestroyed + SessionInitialized events on the real bus)',
 }
 
 
 @with_boxed_tickets
-def h_scenario(c, ops='TSDPD', position='low', send='instant', disconnect='instant'):
+def h_scenario(c, ops='TSDPD', position='low', send='instant', disconnect='instant', listeners=()):
     """disconnect='slow': the connection's disconnect() awaited by the reply handler stays suspended
     for a fresh symbolic time, so later ops (removal, time passing = expiries) land inside the handling"""
-    w = World(c, position, slow_send=(send == 'slow'), slow_disconnect=(disconnect == 'slow'))
+    w = World(c, position, slow_send=(send == 'slow'), slow_disconnect=(disconnect == 'slow'), listeners=listeners)
     wait = send == 'instant'
-    rwait = disconnect == 'instant'
+    rwait = disconnect == 'instant' and 'yield' not in listeners      # else the reply may stay in flight
     for i, op in enumerate(ops):
         if op == 'T':
             w.set_request_timeout()
@@ -682,6 +792,10 @@ def h_scenario(c, ops='TSDPD', position='low', send='instant', disconnect='insta
             exc, _ = w.run_op(w.a_server_interval(interval, keep_running=False), 'server interval')
             if exc is not None:
                 raise symex.HarnessError(f'WishlistInterval handler raised {exc!r}')
+        elif op == 'Z':
+            exc, _ = w.run_op(w.a_relogin(), 'relogin')
+            if exc is not None:
+                raise symex.HarnessError(f'session events raised {exc!r}')
         elif op in 'SRU':
             exc, _ = w.run_op(w.a_search(op), 'search', wait)
             if exc is not None:
@@ -1047,6 +1161,26 @@ def jobs(tier):
     for ops in (['TSDRDQ', 'ILDQD', 'TSDXDQ'] if q else ['TSDRDQ', 'ILDQD', 'TSDXDQ', 'TSRDQDXD', 'TSRDXDQ', 'TSDXDRDQ', 'WILDXDQD', 'ILDQDXD']):
         out.append({'harness': 'scenario', 'fn': h_scenario, 'params': {'ops': ops, 'position': 'low', 'send': 'slow'},
                     'requires': ['scenario_end', 'generator_position_symbolic', 'reply']})
+    # application listeners of the removal / result events, some of which really suspend
+    lj = [('TSDQD', ['sync', 'yield', 'async'], 'instant'), ('TSRDQD', ['yield', 'sync'], 'instant'),
+          ('ILDQD', ['async', 'yield', 'sync'], 'instant')]
+    if not q:
+        lj += [('TSDXDSDQD', ['yield', 'yield'], 'instant'), ('TSTRDQDQ', ['sync', 'yield', 'sync'], 'instant'),
+               ('WILDQD', ['yield', 'async'], 'instant'), ('TSQD', ['yield', 'sync'], 'slow'), ('TSDQD', ['yield'], 'instant')]
+    for ops, ls, disc in lj:
+        params = {'ops': ops, 'position': 'low', 'listeners': ls}
+        if disc != 'instant':
+            params['disconnect'] = disc
+        out.append({'harness': 'scenario', 'fn': h_scenario, 'params': params,
+                    'requires': ['scenario_end', 'generator_position_symbolic', 'reply', 'removed_reported_to_listeners',
+                                 'result_reported_to_listeners']})
+    # the session is lost and re-initialised between searches; registered requests survive
+    zj = [('TSZRQD', 'low'), ('SZSQQ', 'low'), ('TSZRQD', 'constructor'), ('TSDZUDQD', 'low'), ('ILZLQD', 'low')]
+    if not q:
+        zj += [('TSZRZUQD', 'any'), ('TSRZUXQD', 'any'), ('TSZSZSQ', 'low'), ('TWISZLQD', 'low'), ('TSZRQD', 'wrap'), ('ZSZRQD', 'low')]
+    for ops, pos in zj:
+        out.append({'harness': 'scenario', 'fn': h_scenario, 'params': {'ops': ops, 'position': pos},
+                    'requires': ['scenario_end', 'relogin', 'reply'] + ([] if pos == 'constructor' else ['generator_position_symbolic'])})
     # the reply handler stays suspended in connection.disconnect(); removals / expiries land inside
     for ops in (['TSQXD', 'TSQD', 'TSRQDXD', 'ILQD'] if q else
                 ['TSQXD', 'TSQD', 'TSRQDXD', 'ILQD', 'TSQDQD', 'TSPDXD', 'TSDQXDQD', 'WILQXD', 'TSTRQD', 'TSQQXD', 'TSXQD']):
